@@ -72,7 +72,7 @@ type Runtime struct {
 	NoParkSubscribe func(prim string) bool
 	// LateAck selects write operations whose acknowledgement is a scheduled action of its own ("ack/..."): the write has
 	// taken effect and its events flow while the caller still waits for the response (slow response, descheduled caller).
-	LateAck   func(prim, op string) bool
+	LateAck   func(prim, op, key string) bool
 	immediate sync.Mutex
 	// OnWrite is called (on the scheduler goroutine) after every durable write.
 	OnWrite func(w WriteRec)
@@ -176,6 +176,13 @@ func (r *Runtime) read(ctx context.Context, prim, op, key string, fn func(p *Pri
 	if !ok {
 		return aerr.NewCanceled("withdrawn")
 	}
+	if r.LateAck != nil && r.LateAck(prim, op, key) {
+		// the answer of a read can be late too: what it reports may be stale by the time the caller sees it
+		r.k.Stat("late-ack")
+		if !r.k.Park(fmt.Sprintf("ack/%s/%s/%s", prim, op, key), func() {}, ctx) {
+			return aerr.NewCanceled("response withdrawn")
+		}
+	}
 	return err
 }
 
@@ -217,7 +224,7 @@ func (r *Runtime) write(ctx context.Context, prim, op, key string, fn func(p *Pr
 	if !ok {
 		return aerr.NewCanceled("withdrawn")
 	}
-	if r.LateAck != nil && r.LateAck(prim, op) {
+	if r.LateAck != nil && r.LateAck(prim, op, key) {
 		r.k.Stat("late-ack")
 		if !r.k.Park(fmt.Sprintf("ack/%s/%s/%s", prim, op, key), func() {}, ctx) {
 			// the caller went away (deadline, crash) while the response was on its way: the write stands
